@@ -392,8 +392,43 @@ func derivations(maxSteps, maxPreds int) [][]string {
 	return out
 }
 
+// byteSweep puts every byte value (and every two-byte sequence that starts with a
+// UTF-8 lead byte) into each lexical position of a few frames: bare, inside a
+// name, inside either kind of literal, after a valid multi-byte character, and
+// as the last byte of a three- and four-byte sequence.  The reference decides
+// (well-formed UTF-8 or not, legal character for the position or not).
+func (r *runner) byteSweep() {
+	exprFrames := [][2]string{{"", ""}, {"a", ""}, {"'", "'"}, {"'x", "y'"}, {"\"", "\""}, {"a = '", "'"}, {"'\u00e9", "'"}, {"concat(a, '", "')"},
+		{"'\xe2\x82", "'"}, {"'\xf0\x9f\x98", "'"}, {"a[b = '", "']"}}
+	lrFrames := [][2]string{{"", ""}, {"../a", ""}, {"../", "a"}, {"../a[b = current()/../c", "]"}, {"/p:a", ""}}
+	var seqs []string
+	for b := 1; b < 256; b++ {
+		seqs = append(seqs, string([]byte{byte(b)}))
+	}
+	for b1 := 0xc0; b1 < 256; b1++ {
+		for b2 := 0; b2 < 256; b2++ {
+			seqs = append(seqs, string([]byte{byte(b1), byte(b2)}))
+		}
+	}
+	for _, q := range seqs {
+		if r.c.Expired() {
+			return
+		}
+		if !r.c.Owns("bs" + q) {
+			continue
+		}
+		for _, f := range exprFrames {
+			r.one("expr", []string{f[0] + q + f[1]}, "")
+		}
+		for _, f := range lrFrames {
+			r.one("leafref", []string{f[0] + q + f[1]}, "")
+		}
+	}
+}
+
 func run(c *engine.Ctx) {
 	r := &runner{c: c}
+	r.byteSweep()
 	if c.Quick() {
 		r.sequences("expr", exprTokens, 3, "e3")
 		r.sequences("expr", exprStructural, 4, "es4")
